@@ -24,8 +24,8 @@ TECHNIQUE = "property-based testing (Hypothesis): forward-simulated inverse prob
 LEVEL_TEXT = ("Exploration: hundreds to thousands of generated inverse problems per run; each reported model is recomputed element by element from "
               "independent totals and database-text stoichiometry. Completeness of the model search is not asserted.")
 FLOORS = {"quick": 150, "thorough": 1500}
-SHARDS = {"quick": 8, "thorough": 16}
-BUDGET = {"quick": 60, "thorough": 420, "replay": 1}
+SHARDS = {"quick": 4, "thorough": 4}
+BUDGET = {"quick": 150, "thorough": 420, "replay": 1}
 
 SKIP_EL = ("H", "O", "e")
 
@@ -232,6 +232,40 @@ class Chem(object):
             v -= c * self.species_alk(n)
         return v
 
+    def species_h2o(self, name, depth=0):
+        """water molecules in one mole of an aqueous species written in master species (H2O = 1, master species = 0)"""
+        name = F.canonical(name)
+        key = ("w", name)
+        if key in self._alk:
+            return self._alk[key]
+        if name == "H2O":
+            return 1.0
+        if name in ("e-", "H+") or self.db.master_of_species.get(name):
+            return 0.0
+        sp = self.db.species.get(name) or self.db.exchange_species.get(name)
+        if sp is None or depth > 12:
+            raise KeyError(name)
+        v = 0.0
+        for c, n in sp.lhs:
+            v += c * self.species_h2o(n, depth + 1)
+        for c, n in sp.rhs[1:]:
+            v -= c * self.species_h2o(n, depth + 1)
+        v /= sp.rhs[0][0]
+        self._alk[key] = v
+        return v
+
+    def phase_h2o(self, name):
+        """moles of water released per mole of phase dissolved (dissolution reaction as written, in master species)"""
+        p = self.phase(name)
+        if isinstance(p, dbparse.Species):
+            return 0.0
+        v = 0.0
+        for c, n in p.rhs:
+            v += c * self.species_h2o(n)
+        for c, n in p.lhs[1:]:
+            v -= c * self.species_h2o(n)
+        return v
+
     def rows_of(self, element):
         rows = [k for k, m in self.db.master.items() if m.base == element and not m.primary]
         return rows or [element]
@@ -367,9 +401,7 @@ def verify(case, comps, numbers, heads, rows, printed, summary, toler, chem, ctx
                 if lo > hi + s:
                     fail("range_order", "%s: %s: reported minimum %r exceeds the reported maximum %r" % (tag, what, lo, hi))
                 if v < lo - s or v > hi + s:
-                    if strict or os.environ.get("C18_STRICT_RANGE"):
-                        fail("range", "%s: %s = %r lies outside its reported range [%r, %r]" % (tag, what, v, lo, hi))
-                    ctx.event("known_F3:value_outside_reported_range")
+                    fail("range", "%s: %s = %r lies outside its reported range [%r, %r]" % (tag, what, v, lo, hi))
         # ---- (a) necessary feasibility of every element balance (13-digit values, independent totals and stoichiometry)
         for e in E:
             vrows = chem.rows_of(e)
@@ -393,6 +425,20 @@ def verify(case, comps, numbers, heads, rows, printed, summary, toler, chem, ctx
                 fail("element_balance",
                                 "%s: %s balance: sum(alpha*T) + sum(x*c) - T_final = %.6e but the declared uncertainties allow at most %.6e "
                                 "(+ slack %.1e); terms %r" % (tag, e, resid, bound, slack, terms))
+        # ---- (a-water) hydrogen and oxygen are balanced as water: sum(alpha*W)/M_w + water of the phases = W_final/M_w
+        #      (+- uncertainty_water); M_w is the formula weight of H2O from the element weights of the database text
+        mw = chem.db.formula_weight("H2O") / 1000.0
+        wt = []
+        for q in range(nq):
+            wt.append((1.0 if q < nq - 1 else -1.0) * alpha[q] * comps[q]["water"] / mw)
+        if inv["mineral_water"] is not False:
+            wt += [x[j] * chem.phase_h2o(phases[j]) for j in range(nph) if x[j]]
+        resid = math.fsum(wt)
+        slack = 1e-9 * math.fsum(abs(t) for t in wt) + 2 * tol10 + abs(inv["u_water"] or 0.0) * (1 + 1e-9)
+        no_redox = printed is not None and not printed[mi]["redox"]      # redox transfers carry water of their own, not reported
+        if no_redox and abs(resid) > slack:
+            fail("water_balance", "%s: water balance (mol): terms %r: residual %.6e exceeds uncertainty_water + slack = %.3e" % (
+                tag, wt, resid, slack))
         # ---- MaxFracErr (13 digits): the largest relative adjustment of a printed row cannot exceed the largest allowed one
         pm = printed[mi] if printed is not None else None
         if pm is not None:
@@ -584,7 +630,52 @@ def execute(case, ctx):
     return {"text_a": text_a, "text_b": text_b, "comps": comps, "numbers": numbers, "out": out, "so": so, "warn": warn, "chem": chem}
 
 
+def reformulate(case, variant):
+    """the same inverse problem written differently (nothing the property depends on changes):
+    1: phases listed in reverse order;  2: every amount scaled by 1.7 (water masses, reactant moles, absolute uncertainties)
+    and the phase list rotated.  Used to tell a reproducible violation from a sporadic failure of the LP solver."""
+    import copy
+    c = copy.deepcopy(case)
+    inv = c["inv"]
+    if variant == 1:
+        inv["phases"] = list(reversed(inv["phases"]))
+        return c
+    f = 1.7
+    k = (len(inv["phases"]) + 1) // 2
+    inv["phases"] = inv["phases"][k:] + inv["phases"][:k]
+    for sol in c["sols"]:
+        sol["water"] = float("%.12g" % (sol.get("water", 1.0) * f))
+    c["rxn"] = [[r, float("%.12g" % (a * f))] for r, a in c["rxn"]]
+    c["eq"] = [[p, si, float("%.12g" % (m * f))] for p, si, m in c["eq"]]
+    inv["unc"] = [u if u >= 0 else float("%.12g" % (u * f)) for u in inv["unc"]]
+    inv["balances"] = [[b, [u if (u >= 0 or b == "pH") else float("%.12g" % (u * f)) for u in us]] for b, us in inv["balances"]]
+    if inv["u_water"]:
+        inv["u_water"] = float("%.12g" % (inv["u_water"] * f))
+    return c
+
+
 def check_case(case, ctx):
+    strict = bool(case.get("no_exclusions")) or bool(os.environ.get("C18_NO_CONFIRM"))
+    try:
+        return check_once(case, ctx, True)
+    except Violation as v:
+        if strict:
+            raise
+        # a violation counts only if it is reproducible: the pinned tree's LP solver sporadically returns wrong answers without any
+        # notice (known findings F1, F3, F4, F5); those do not survive a reformulation of the same problem, a wrong set-up does
+        for variant in (1, 2):
+            try:
+                check_once(reformulate(case, variant), ctx, False)
+            except Violation:
+                continue
+            except Discard:
+                pass
+            ctx.event("not_reproduced_under_reformulation:" + v.oracle)
+            return {"nontrivial": False, "classes": ["sporadic_solver_failure"]}
+        raise
+
+
+def check_once(case, ctx, first):
     X = execute(case, ctx)
     comps, numbers, out, so, warn, chem = X["comps"], X["numbers"], X["out"], X["so"], X["warn"], X["chem"]
     heads, mrows = parse_models_so(so)
@@ -622,6 +713,8 @@ def check_case(case, ctx):
         classes.append("warning_roundoff_minimal")
     if summary.get("range_error"):
         classes.append("range_lp_failed")
+    if summary.get("cl1_notice"):
+        classes.append("lp_failure_notice")
     if heads is None:
         # no heading line: the inverse calculation did not run
         raise Discard("no_inverse_heading")
@@ -631,11 +724,22 @@ def check_case(case, ctx):
     if len(printed) != len(mrows):
         classes.append("tables_unpaired")
         printed = None
-    info = verify(case, comps, numbers, heads, mrows, printed, summary, toler, chem, ctx)
+    info = verify(case, comps, numbers, heads, mrows, printed, summary, toler, chem, ctx if first else _Quiet(ctx))
     if mrows:
+        classes.append("verified_models=%s" % bucket(info["verified"], [0, 1, 2, 4, 8]))
         classes.append("max_transfers=%s" % bucket(info["max_transfers"], [0, 1, 2, 4, 6]))
         classes.append("adjusted_rows=%s" % bucket(info["adjusted"], [0, 1, 3, 6]))
     return {"nontrivial": info["nt"], "classes": classes}
+
+
+class _Quiet(object):
+    """context of a confirmation run: events are not counted twice"""
+
+    def __init__(self, ctx):
+        self.extra = ctx.extra
+
+    def event(self, name, n=1):
+        pass
 
 
 def bucket(n, edges):
